@@ -32,6 +32,7 @@ def main():
     ap.add_argument('--checks')
     ap.add_argument('--name')
     ap.add_argument('--seed', default='0')
+    ap.add_argument('--rev', default='HEAD', help='revision of /repo the change is applied to')
     args = ap.parse_args()
     src = args.src or '/tmp/m/{}/out'.format(args.pid)
     name = args.name or args.pid
@@ -41,7 +42,8 @@ def main():
     tmp = tempfile.mkdtemp(prefix='seeded_')
     wt = os.path.join(tmp, 'repo')
     try:
-        r = sh(['git', '-C', '/repo', 'worktree', 'add', '--detach', wt, 'HEAD'])
+        r = sh(['git', '-C', '/repo', 'worktree', 'add', '--detach', wt, args.rev])
+        meta['applied_to'] = sh(['git', '-C', '/repo', 'rev-parse', '--short', args.rev]).stdout.strip()
         if r.returncode:
             print('worktree failed', r.stderr)
             return 2
@@ -114,7 +116,7 @@ def run_checks(args, meta, wt, patch, src, name):
     dst = os.path.join(ROOT, 'seeded', name)
     os.makedirs(dst, exist_ok=True)
     for f in ('patch.diff', 'demo.py', 'notes.md'):
-        if os.path.exists(os.path.join(src, f)):
+        if os.path.exists(os.path.join(src, f)) and os.path.abspath(src) != os.path.abspath(dst):
             shutil.copy(os.path.join(src, f), os.path.join(dst, f))
     notes = os.path.join(src, 'notes.md')
     meta['needs_to_manifest'] = open(notes).read()[:1500] if os.path.exists(notes) else ''
